@@ -65,7 +65,18 @@ def run(ctx):
             nsteps += 1
             interior = beta_t < 1.0
             ctx.count((cfg["seed"], t), interior, kind=("float32/" if single else "") + ("interior" if interior else "full-step"))
-            eff = lambda b: sb.mp_step_quantities(pop, b)[0] / N
+            if single:
+                # float32: the log-weights (beta - beta_prev) * a_i are themselves rounded at eps32 * |log w| (inherent to the width), so
+                # "the ESS of the incremental weights" is taken of the weights the population reports at that temperature — evaluated
+                # exactly (mpmath) from that array; what is checked is the ESS functional and the search, not float32's resolution
+                def eff(b, pop=pop):
+                    lw_ = [mp.mpf(float(v)) for v in nsutil.to_list(pop.log_weights(b))]
+                    m_ = max(lw_)
+                    e_ = [mp.exp(v - m_) for v in lw_]
+                    s1_, s2_ = mp.fsum(e_), mp.fsum([v * v for v in e_])
+                    return float(s1_ * s1_ / s2_) / N
+            else:
+                eff = lambda b: sb.mp_step_quantities(pop, b)[0] / N
             e_t = eff(beta_t)
             floor_forced = beta_t <= beta_prev + ms + 1e-15 and ms > 0
             progress_forced = (beta_t - beta_prev) <= tol * (1 + 1e-9)
